@@ -36,6 +36,7 @@ inductive Query where
   | pagelinks (weid : Nat) (prefixes : List Bytes) (incIn incInt incOut : Bool)
   | paginateLinks (weid : Nat) (prefixes : List Bytes) (incInt incOut : Bool) (count : Option Nat) (token : Option Bytes)
   | cited (prefixes : List Bytes) (out : Bool)
+  | weDegrees (prefixes : List Bytes)
   | pageLinks (lru : Bytes) (incIn incInt incOut : Bool)
   | pageDegree (lru : Bytes) (kind : State.DegKind) (weighted : Bool)
   | network (out auto slow : Bool)
@@ -112,6 +113,7 @@ def ask (s : State) : Query → Ans
   | .pagelinks w ps i n o => .ofExcept .links (s.webentityPagelinks w ps i n o)
   | .paginateLinks w ps n o k t => .ofExcept .linkChunk (s.paginateLinks w ps n o k t)
   | .cited ps o => .ofExcept .nats (s.citedWebentities ps o)
+  | .weDegrees ps => .ofExcept .nats (s.webentityDegrees ps)
   | .pageLinks l i n o => .links (s.pageLinks l i n o)
   | .pageDegree l k w => .nat (s.pageDegree l k w)
   | .network o a slow => .net (if slow then s.networkSlow o a else s.network o a)
